@@ -160,6 +160,9 @@ static void run(const char *prop, const RunSpec &spec)
 				// and tiny ones only while serials are unique modulo 256
 				if (len == 0) len = 1;
 				if (len < 4 && wserial >= 255) len = 4;
+				// C11 speaks of writes "of at most the requested size": larger ones are outside it
+				// (observed, not judged: a failing oversize write first discards every retained chunk)
+				if (len > S) len = S;
 			}
 			bool must = overwrite ? (len <= S) : ((M.empty() && len <= S) || (used + len + 16 <= S));
 			if (len % 4) count(c_len_unaligned);
